@@ -1,3 +1,3 @@
-import GoNeat.Model.Mate
-open GoNeat
-#check @singlePointWalk.induct
+import GoNeat.Proofs.EpochRegistry
+#print axioms GoNeat.C03.reproduceOne_shape
+#print axioms GoNeat.C03.mate_from
